@@ -16,6 +16,7 @@ import (
 
 	"verifharness/internal/fw"
 
+	"github.com/wundergraph/graphql-go-tools/v2/pkg/engine/datasource/httpclient"
 	"github.com/wundergraph/graphql-go-tools/v2/pkg/engine/resolve"
 )
 
@@ -192,7 +193,14 @@ func (e *execEnv) load(ctx context.Context, dsFetch int, input []byte) ([]byte, 
 		// overlap (no verdict depends on it)
 		time.Sleep(time.Duration((req.seq*7919+dsFetch*104729+len(input))%400) * time.Microsecond)
 	}
-	out, err := e.respond(req)
+	out, status, err := e.respond(req)
+	if status != 0 {
+		// what the HTTP client of a real data source does: report the status of the subgraph's
+		// answer through the response context the loader injected
+		if rc := httpclient.GetResponseContext(ctx); rc != nil {
+			rc.StatusCode = status
+		}
+	}
 	e.mu.Lock()
 	e.clock++
 	req.relAt = e.clock
@@ -202,20 +210,38 @@ func (e *execEnv) load(ctx context.Context, dsFetch int, input []byte) ([]byte, 
 	return out, err
 }
 
-func (e *execEnv) respond(req *request) ([]byte, error) {
+// respond: body, HTTP status (0 = the data source reports none, as in the kinds without faults)
+// and transport error of the fake subgraph's answer.
+func (e *execEnv) respond(req *request) ([]byte, int, error) {
 	spec := e.spec
 	f := spec.get(req.dsFetch)
 	if f == nil {
-		return nil, fmt.Errorf("unknown fetch %d", req.dsFetch)
+		return nil, 0, fmt.Errorf("unknown fetch %d", req.dsFetch)
 	}
 	if spec.Kind != "entity" {
+		okStatus := 0
+		if spec.faulty() {
+			okStatus = 200
+		}
 		switch f.Fail {
 		case failTransport:
-			return nil, fmt.Errorf("subgraph of fetch %d unreachable", f.ID)
+			return nil, 0, fmt.Errorf("subgraph of fetch %d unreachable", f.ID)
 		case failGQL:
-			return []byte(fmt.Sprintf(`{"errors":[{"message":"boom%d"}],"data":{"f%d":{"v":%q}}}`, f.ID, spec.class(f.ID), e.token(f.ID))), nil
+			return []byte(fmt.Sprintf(`{"errors":[{"message":"boom%d"}],"data":{"f%d":{"v":%q}}}`, f.ID, spec.class(f.ID), e.token(f.ID))), okStatus, nil
+		case failStatusHTML:
+			return []byte(`<html><body>502 Bad Gateway</body></html>`), 502, nil
+		case failStatusNull:
+			return []byte(`{"data":null}`), 503, nil
+		case failStatusGQL:
+			return []byte(fmt.Sprintf(`{"errors":[{"message":"down%d"}],"data":null}`, f.ID)), 500, nil
+		case failNullData:
+			return []byte(`{"data":null}`), okStatus, nil
+		case failGQLNull:
+			return []byte(fmt.Sprintf(`{"errors":[{"message":"nope%d","path":["f%d"]}],"data":null}`, f.ID, spec.class(f.ID))), okStatus, nil
+		case failEmpty:
+			return nil, okStatus, nil
 		}
-		return []byte(fmt.Sprintf(`{"data":{"f%d":{"v":%q}}}`, spec.class(f.ID), e.token(f.ID))), nil
+		return []byte(fmt.Sprintf(`{"data":{"f%d":{"v":%q}}}`, spec.class(f.ID), e.token(f.ID))), okStatus, nil
 	}
 	if f.Root {
 		primary := spec.primaryRoot() == f.ID
@@ -225,10 +251,10 @@ func (e *execEnv) respond(req *request) ([]byte, error) {
 			}
 			return fmt.Sprintf(`{"r%d":%q}`, f.ID, e.token(f.ID))
 		}
-		return []byte(fmt.Sprintf(`{"data":{"e":%s,"l":[%s,%s]}}`, obj(entityID), obj(listIDs[0]), obj(listIDs[1]))), nil
+		return []byte(fmt.Sprintf(`{"data":{"e":%s,"l":[%s,%s]}}`, obj(entityID), obj(listIDs[0]), obj(listIDs[1]))), 0, nil
 	}
 	if req.parseErr != "" {
-		return []byte(`{"errors":[{"message":"fake subgraph could not read the request"}],"data":null}`), nil
+		return []byte(`{"errors":[{"message":"fake subgraph could not read the request"}],"data":null}`), 0, nil
 	}
 	entities := func(id int) string {
 		n := req.reps[id]
@@ -242,7 +268,7 @@ func (e *execEnv) respond(req *request) ([]byte, error) {
 		return "[" + strings.Join(items, ",") + "]"
 	}
 	if req.aliases == nil {
-		return []byte(fmt.Sprintf(`{"data":{"_entities":%s}}`, entities(f.ID))), nil
+		return []byte(fmt.Sprintf(`{"data":{"_entities":%s}}`, entities(f.ID))), 0, nil
 	}
 	var parts []string
 	for _, id := range req.ids {
@@ -250,7 +276,7 @@ func (e *execEnv) respond(req *request) ([]byte, error) {
 			parts = append(parts, fmt.Sprintf(`%q:%s`, req.aliases[id], entities(id)))
 		}
 	}
-	return []byte(`{"data":{` + strings.Join(parts, ",") + `}}`), nil
+	return []byte(`{"data":{` + strings.Join(parts, ",") + `}}`), 0, nil
 }
 
 // ---------------------------------------------------------------------------------------------
@@ -425,8 +451,8 @@ func (e *execEnv) openAll() {
 	e.mu.Unlock()
 }
 
-// predictedSkip: fetches the loader will not send because a (transitive) dependency failed at
-// the transport level.
+// predictedSkip: fetches the loader may not send because a (transitive) dependency delivered
+// nothing (transport error, unusable answer, data:null).
 func predictedSkip(spec *planSpec) map[int]bool {
 	skip := map[int]bool{}
 	memo := map[int]int{}
@@ -441,7 +467,7 @@ func predictedSkip(spec *planSpec) map[int]bool {
 		if f != nil {
 			for _, d := range f.Deps {
 				df := spec.get(d)
-				if df != nil && (df.Fail == failTransport || rec(d)) {
+				if df != nil && (df.Fail.deliversNothing() || rec(d)) {
 					r = true
 				}
 			}
@@ -689,6 +715,7 @@ func (e *execEnv) checkExecution(res *fw.Result, o optSet, sch schedule, oc *exe
 		match["opt"] = o.Name
 		match["plan_kind"] = spec.Kind
 		match["schedule"] = sch.mode
+		match["fetch_info"] = spec.Info.String()
 		d := witness()
 		d["problem"] = msg
 		d["schedule"] = sch.desc
@@ -745,7 +772,7 @@ func (e *execEnv) checkExecution(res *fw.Result, o optSet, sch schedule, oc *exe
 				}
 				drs := byID[sd]
 				if len(drs) == 0 {
-					if complete && !skip[sd] && spec.get(sd) != nil && spec.get(sd).Fail != failTransport {
+					if complete && !skip[sd] && spec.get(sd) != nil && !spec.get(sd).Fail.deliversNothing() {
 						viol("runtime.early-request", fmt.Sprintf("fetch %d was sent although the request of its dependency %d never arrived", id, sd),
 							map[string]string{"against": "never-sent"})
 					}
@@ -794,7 +821,7 @@ func (e *execEnv) checkContent(r *request) (msg, what string) {
 				if i > 0 {
 					b.WriteString(",")
 				}
-				if df := spec.get(rd.Dep); df != nil && (df.Fail == failTransport || skip[rd.Dep]) {
+				if df := spec.get(rd.Dep); df != nil && (df.Fail.deliversNothing() || skip[rd.Dep]) {
 					b.WriteString("null") // that dependency delivered nothing (whether f should be sent at all is C07's question)
 					continue
 				}
@@ -897,9 +924,10 @@ func truncate(s string, n int) string {
 // response comparison
 
 type normResponse struct {
-	data   string
-	errors []string
-	raw    string
+	data     string
+	errors   []string // every error object, sorted (multiset)
+	errorsMP []string // (message, path) of every error, sorted (multiset)
+	raw      string
 }
 
 func normaliseResponse(out []byte, nonce string) (normResponse, error) {
@@ -916,10 +944,31 @@ func normaliseResponse(out []byte, nonce string) (normResponse, error) {
 		}
 		for _, x := range arr {
 			nr.errors = append(nr.errors, string(x))
+			var mp struct {
+				Message json.RawMessage `json:"message"`
+				Path    json.RawMessage `json:"path"`
+			}
+			_ = json.Unmarshal(x, &mp)
+			nr.errorsMP = append(nr.errorsMP, string(mp.Message)+" @ "+string(mp.Path))
 		}
 		sort.Strings(nr.errors)
+		sort.Strings(nr.errorsMP)
 	}
 	return nr, nil
+}
+
+// sameMessagesAndPaths: the multisets of (message, path) agree (the difference, if any, is in
+// extensions / other members of the error objects).
+func (a normResponse) sameMessagesAndPaths(b normResponse) bool {
+	if len(a.errorsMP) != len(b.errorsMP) {
+		return false
+	}
+	for i := range a.errorsMP {
+		if a.errorsMP[i] != b.errorsMP[i] {
+			return false
+		}
+	}
+	return true
 }
 
 func (a normResponse) equal(b normResponse) (bool, string) {
